@@ -48,9 +48,9 @@ theorem prim_life (a b : State) (p : Prim a b) : Life a b := by
       · simp [startOkPath, h1, aSockOpened]
       · simp [startOkPath, h1, aSockOpened, hfin]
   case finishBegin g1 g2 => exact .finishBegin g1 g2 rfl rfl rfl
-  case finToReady g _ => exact .toReady g rfl rfl rfl
+  case finToReady g _ _ => exact .toReady g rfl rfl rfl
   case finFail e g1 g2 _ _ _ _ => exact .finFail g1 g2 e rfl rfl rfl
-  case hsEnter g1 g2 _ => exact .hsEnter g1 g2 rfl rfl rfl
+  case hsEnter g1 g2 _ _ => exact .hsEnter g1 g2 rfl rfl rfl
   case helloStart g1 g2 _ _ => exact .helloStart g1 g2 rfl rfl rfl
   case helloOk g _ =>
     have hst : (aFinFutCb (aKeepalive a)).st = a.st := by
